@@ -1,6 +1,8 @@
 import GlyModel.Generated.Tables
 import GlyProofs.Mono.AssembleSound
 import GlyProofs.Mono.ReactLemmas
+import GlyProofs.Mono.AnchorP
+import GlyProofs.Mono.AnchorF
 /-
   C04 — A modification adds its named group at its named carbon, and only that. (Property theorems only.)
 -/
@@ -162,5 +164,15 @@ theorem C04_assemble_example :
     let final := "O1C(O)[C@H](O)[C@@H](OS(=O)(=O)O)[C@@H](O)[C@H]1COC(=O)C".toList
     assembleText marked chains 0 = final ∧ certifyAssemble marked chains 0 final = true := by
   decide +kernel
+
+open Gly.EnumC in
+/-- **Where position-less groups go**: the reactor anchors every modification written without a position on `ring_c` (`OMe`, bare
+    groups) or `ring_c + 1` (`NAc`, `NS`, `PEtn`, … – `C04`'s Model `tokenEffect`). For every anomer-less row of both ring tables the
+    Model of `ring_c` (smallest number of a carbon lying in the main ring only, on the Model of the code's numbering; tied to
+    reactor.py by comparing it with `self.ring_c` on the features observed before `check_for_anhydro`) is the number of the anomeric
+    carbon in the chemistry-level main chain – 1 for aldoses, 2 for 2-ketoses. Kernel evaluation over the regenerated tables. -/
+theorem C04_default_anchor_table :
+    anchorOk Gen.pyranoseTable ["API", "ERWINIOSE", "YER"] = true ∧ anchorOk Gen.furanoseTable ["API"] = true :=
+  ⟨anchor_pyranose, anchor_furanose⟩
 
 end Gly.Props.C04
